@@ -724,7 +724,7 @@ func runC10(c *Ctx) error {
 		os.Stdout = devnull // gmw prints "New peer ..." lines
 		defer func() { os.Stdout = saved; devnull.Close() }()
 	}
-	nconf := c.N(14, 110) // two networks per configuration
+	nconf := c.N(12, 110) // two networks per configuration
 	timeout := 40 * time.Second
 	directed := c10DirectedJobs(c, c.rng.Fork())
 	for i := 0; i < nconf+len(directed); i++ {
@@ -1107,7 +1107,198 @@ func runC10(c *Ctx) error {
 		obs := L(L(wpg...), I(1), I(validFlag), I(totalWords), L(outs1...))
 		c.Case(in, obs)
 	}
+	if err := c10Chains(c, timeout); err != nil {
+		return err
+	}
 	return c10Wide(c, timeout)
+}
+
+// c10Chain: a chain of depth AND gates over two 1-bit inputs (2 parties).
+// mix: XOR/XNOR/INV gates between the ANDs (they keep the AND depth).
+// keepOne: only gates that keep the chain value 1 for all-one inputs
+// (XNOR with an input, pairs of INV), for the network run.
+func c10Chain(r *RNG, depth int, mix, keepOne bool) *circuit.Circuit {
+	gates := make([]circuit.Gate, 0, depth*3/2+4)
+	next := 2
+	cur := r.Intn(2)
+	emit := func(op circuit.Operation, in0, in1 int) {
+		gates = append(gates, circuit.Gate{Input0: circuit.Wire(in0), Input1: circuit.Wire(in1), Output: circuit.Wire(next), Op: op})
+		cur = next
+		next++
+	}
+	for d := 0; d < depth; d++ {
+		if mix && r.Intn(4) == 0 {
+			switch k := r.Intn(3); {
+			case keepOne && k == 0, !keepOne && k == 0:
+				emit(circuit.XNOR, cur, r.Intn(2))
+			case keepOne:
+				emit(circuit.INV, cur, 0)
+				emit(circuit.INV, cur, 0)
+			case k == 1:
+				emit(circuit.XOR, cur, r.Intn(2))
+			default:
+				emit(circuit.INV, cur, 0)
+			}
+		}
+		emit(circuit.AND, cur, r.Intn(2))
+	}
+	c := &circuit.Circuit{NumGates: len(gates), NumWires: next, Gates: gates}
+	c.Inputs = c10IO("p", []int{1, 1})
+	c.Outputs = c10IO("r", []int{1})
+	for _, g := range gates {
+		c.Stats[g.Op]++
+	}
+	return c
+}
+
+type c10LevelReplay struct {
+	Seed     uint64 `json:"seed"`
+	Depth    int    `json:"and_depth"`
+	Mix      bool   `json:"mixed_with_xor_inv"`
+	Gates    int    `json:"gates"`
+	Evidence string `json:"evidence"`
+}
+
+// c10CheckLevels evaluates the defining property of AssignLevels(TargetGMW)
+// on the implementation: Gate.Level = AND depth of the gate's operands
+// (computed here with unbounded ints), hence every gate's level is >= the
+// level of the gates producing its operands, and > when the producer is an
+// AND; Stats[NumLevels] = the maximal AND depth of a wire.
+func c10CheckLevels(circ *circuit.Circuit) string {
+	depthOf := make([]int, circ.NumWires) // AND depth of every wire
+	prod := make([]int, circ.NumWires)    // producing gate, -1 for inputs
+	for i := range prod {
+		prod[i] = -1
+	}
+	max := 0
+	for gi, g := range circ.Gates {
+		want := depthOf[g.Input0]
+		ins := []circuit.Wire{g.Input0}
+		if g.Op != circuit.INV {
+			ins = append(ins, g.Input1)
+			if depthOf[g.Input1] > want {
+				want = depthOf[g.Input1]
+			}
+		}
+		for _, w := range ins {
+			if pj := prod[w]; pj >= 0 {
+				pg := circ.Gates[pj]
+				need := int(pg.Level)
+				if pg.Op == circuit.AND {
+					need++
+				}
+				if int(g.Level) < need {
+					return fmt.Sprintf("gate #%d (%s w%d w%d -> w%d) has level %d but its operand w%d is produced by gate #%d (%s, level %d): the level-wise schedule of Network.run evaluates the consumer in round %d, before the producer's result exists (round %d)",
+						gi, g.Op, g.Input0, g.Input1, g.Output, g.Level, w, pj, pg.Op, pg.Level, g.Level, need)
+				}
+			}
+		}
+		if int(g.Level) != want {
+			return fmt.Sprintf("gate #%d (%s w%d w%d -> w%d): Gate.Level = %d, AND depth of its operands = %d", gi, g.Op, g.Input0, g.Input1, g.Output, g.Level, want)
+		}
+		out := want
+		if g.Op == circuit.AND {
+			out++
+		}
+		depthOf[g.Output] = out
+		prod[g.Output] = gi
+		if out > max {
+			max = out
+		}
+	}
+	if int(circ.Stats[circuit.NumLevels]) != max {
+		return fmt.Sprintf("Stats[NumLevels] = %d, maximal AND depth = %d", circ.Stats[circuit.NumLevels], max)
+	}
+	return ""
+}
+
+// c10Chains: AssignLevels on deep AND chains without a network (every
+// tier), mid-size chains as correspondence cases for the model's
+// assign_levels, and (thorough) one real 2-party run of a 65537-level chain.
+func c10Chains(c *Ctx, timeout time.Duration) error {
+	r := c.rng.Fork()
+	for _, depth := range []int{65535, 65536, 65537, 70000} {
+		for _, mix := range []bool{false, true} {
+			circ := c10Chain(r, depth, mix, false)
+			circ.AssignLevels(utils.TargetGMW)
+			c.Eval(fmt.Sprintf("levels|%d|%v|%d", depth, mix, len(circ.Gates)), true)
+			c.Hist("kind:deep-and-chain(levels only)")
+			if ev := c10CheckLevels(circ); ev != "" {
+				key := "c10:levels:and-depth<65536:wrong-level"
+				if depth >= 65536 {
+					key = "c10:levels:and-depth>=65536:not-topological"
+				}
+				c.Fail(key, "Circuit.AssignLevels(TargetGMW) assigns a level that does not respect the dependencies",
+					c10LevelReplay{Seed: c.Seed, Depth: depth, Mix: mix, Gates: len(circ.Gates), Evidence: ev})
+			}
+		}
+	}
+	// correspondence: the model's assign_levels on mid-size chains
+	for _, depth := range []int{r.Range(900, 1100), 2000} {
+		circ := c10Chain(r, depth, true, false)
+		circ.AssignLevels(utils.TargetGMW)
+		c.Eval(fmt.Sprintf("levels|%d|mid|%d", depth, len(circ.Gates)), true)
+		c.Hist("kind:mid-and-chain(levels only)")
+		if ev := c10CheckLevels(circ); ev != "" {
+			c.Fail("c10:levels:and-depth<65536:wrong-level", "Circuit.AssignLevels(TargetGMW) assigns a level that does not respect the dependencies",
+				c10LevelReplay{Seed: c.Seed, Depth: depth, Mix: true, Gates: len(circ.Gates), Evidence: ev})
+		}
+		levels := make([]int, len(circ.Gates))
+		for gi, g := range circ.Gates {
+			levels[gi] = int(g.Level)
+		}
+		dims, gs := CircuitSX(circ)
+		c.Case(L(I(3), dims, gs), L(Ints(levels), I(int(circ.Stats[circuit.NumLevels]))))
+	}
+	if !c.Thorough() {
+		return nil
+	}
+	// one real network on a chain deeper than 2^16 levels
+	depth := 65537
+	circ := c10Chain(r, depth, true, true)
+	circ.AssignLevels(utils.TargetGMW)
+	inputs := []*big.Int{big.NewInt(1), big.NewInt(1)}
+	want, err := circ.Compute(inputs)
+	if err != nil {
+		return fmt.Errorf("chain: Compute: %v", err)
+	}
+	wantBits := JoinOutputs(circ, want)
+	replay := c10Replay{Seed: c.Seed, Case: -2, Parties: 2, Kind: "deep-and-chain", Inputs: []string{"1", "1"}, Want: bitsString(wantBits),
+		Detail: fmt.Sprintf("chain of %d AND gates (XNOR / INV INV between), %d gates, NumLevels=%d", depth, len(circ.Gates), circ.Stats[circuit.NumLevels])}
+	var res []c10PartyResult
+	var stalled bool
+	for attempt := 0; attempt < 4; attempt++ {
+		var retry bool
+		res, stalled, retry = c10RunNetwork(&c10Plan{n: 2, circ: circ, inputs: inputs, delays: [][]int{{0, 0, 0, 0}, {0, 0, 0, 0}}, order: []int{1}, timeout: timeout + 200*time.Second})
+		if !retry {
+			break
+		}
+	}
+	c.Eval(fmt.Sprintf("chain-run|%d|%d", depth, len(circ.Gates)), true)
+	c.Hist("kind:deep-and-chain(network)")
+	if stalled {
+		c.Fail("c10:levels:and-depth>=65536:stalled", "GMW network stalled", replay)
+		return nil
+	}
+	var gotStr []string
+	for p := range res {
+		if res[p].err != nil {
+			rp := replay
+			rp.Detail += fmt.Sprintf("; party %d failed at %s: %v", p, res[p].step, res[p].err)
+			c.Fail("c10:levels:and-depth>=65536:error", "GMW party returned an error", rp)
+			return nil
+		}
+		gotStr = append(gotStr, bitsString(JoinOutputs(circ, res[p].out)))
+	}
+	for _, g := range gotStr {
+		if g != bitsString(wantBits) {
+			rp := replay
+			rp.Got = gotStr
+			c.Fail("c10:levels:and-depth>=65536:wrong-output", "a party's GMW output differs from Circuit.Compute", rp)
+			break
+		}
+	}
+	return nil
 }
 
 // c10WideCircuit: one AND level with more gates than the full pool holds
